@@ -172,7 +172,89 @@ def replay (cfg : Cfg) (tokens : Nat) : List LinOp → Option Nat
 def parseProg (s : String) : List BOp :=
   s.toList.filterMap fun ch => if ch = 'W' then some .W else if ch = 'D' then some .D else none
 
+/-! ### budgets built through `RetryBudgetBuilder` (`chain=` in the header)
+
+Setters apply in the order given, the last one of a kind wins, unnamed settings keep the builder's defaults
+(token bucket: `max_tokens` 100, `initial_tokens` = whatever `max_tokens` is when `build()` runs; AIMD: min 10, max 1000,
+deposit 1, withdraw 1, factor 1/2). -/
+
+structure TokenB where
+  max  : Nat := 100
+  init : Option Nat := none
+deriving Repr
+
+structure AimdB where
+  min : Nat := 10
+  max : Nat := 1000
+  dep : Nat := 1
+  wd  : Nat := 1
+  fnum : Nat := 1
+  fden : Nat := 2
+deriving Repr
+
+inductive TSet
+  | init (n : Nat)
+  | max (n : Nat)
+  | other
+deriving Repr, DecidableEq
+
+inductive ASet
+  | min (n : Nat)
+  | max (n : Nat)
+  | dep (n : Nat)
+  | wd (n : Nat)
+  | factor (p q : Nat)
+  | other
+deriving Repr, DecidableEq
+
+def itemNat (s : String) : Nat := ((s.drop 1).toString.toNat?).getD 0
+
+def parseTSet (it : String) : TSet :=
+  if it.startsWith "i" then .init (itemNat it)
+  else if it.startsWith "m" then .max (itemNat it)
+  else .other
+
+def parseASet (it : String) : ASet :=
+  if it.startsWith "n" then .min (itemNat it)
+  else if it.startsWith "x" then .max (itemNat it)
+  else if it.startsWith "d" then .dep (itemNat it)
+  else if it.startsWith "w" then .wd (itemNat it)
+  else if it.startsWith "f" then
+    match ((it.drop 1).toString.splitOn "_") with
+    | [p, q] => .factor (p.toNat?.getD 1) (q.toNat?.getD 2)
+    | _ => .other
+  else .other
+
+def tokenSet (b : TokenB) : TSet → TokenB
+  | .init n => { b with init := some n }
+  | .max n => { b with max := n }
+  | .other => b
+
+def aimdSet (b : AimdB) : ASet → AimdB
+  | .min n => { b with min := n }
+  | .max n => { b with max := n }
+  | .dep n => { b with dep := n }
+  | .wd n => { b with wd := n }
+  | .factor p q => { b with fnum := p, fden := q }
+  | .other => b
+
+def chainItems (s : String) : List String := (s.splitOn ".").filter fun x => !x.isEmpty && x != "-"
+
+/-- `TokenBucketBuilder::build`: `initial_tokens.unwrap_or(max_tokens)`, then the constructor's clamp -/
+def tokenCfg (b : TokenB) : Cfg :=
+  { aimd := false, cost := 1000, amount := 1000, maxTokens := b.max * 1000,
+    initial := min (b.init.getD b.max) b.max * 1000, minLimit := 0, maxLimit := 0 }
+
+def aimdCfg (b : AimdB) : Cfg :=
+  { aimd := true, cost := b.wd, amount := b.dep, maxTokens := b.max, initial := b.max,
+    minLimit := b.min, maxLimit := b.max, fnum := b.fnum, fden := b.fden }
+
 def parseCfg (kv : Kv) : Cfg :=
+  match kv.get "chain" with
+  | some ch =>
+    if kv.str "kind" "token" = "aimd" then aimdCfg (((chainItems ch).map parseASet).foldl aimdSet {})
+    else tokenCfg (((chainItems ch).map parseTSet).foldl tokenSet {})
+  | none =>
   if kv.str "kind" "token" = "aimd" then
     let mx := kv.nat "max" 10
     { aimd := true, cost := kv.nat "wd" 1, amount := kv.nat "dep" 1, maxTokens := mx, initial := mx,
@@ -188,6 +270,7 @@ def renderOut (o : List (Option Bool)) : String :=
 structure DState where
   cfg   : Cfg
   progs : List (List BOp) := []
+  built : Bool := false      -- built through the builder: only the `RetryBudget` trait object exists, no `current_max()`
 
 def setAt {α : Type} (l : List α) (i : Nat) (d x : α) : List α :=
   if i < l.length then l.set i x else l ++ List.replicate (i - l.length) d ++ [x]
@@ -198,7 +281,7 @@ def enumFrom {α : Type} (i : Nat) : List α → List (Nat × α)
 
 def machine : Machine where
   σ := DState
-  init kv := { cfg := parseCfg kv }
+  init kv := { cfg := parseCfg kv, built := (kv.get "chain").isSome }
   step := fun d ws =>
     match ws with
     | "manual" :: "thread" :: rest =>
@@ -214,7 +297,7 @@ def machine : Machine where
         let tr := s.trace.map fun p => Ev.raw (if p.1 then s!"step {p.2}" else s!"skip {p.2}")
         let th := (enumFrom 0 s.threads).map fun p => Ev.raw s!"th {p.1} {renderOut p.2.out}"
         let bal := if d.cfg.aimd then s.tokens else s.tokens / 1000
-        let lim := if d.cfg.aimd then [Ev.raw s!"limit {s.limit}"] else []
+        let lim := if d.cfg.aimd && !d.built then [Ev.raw s!"limit {s.limit}"] else []
         (d, tr ++ th ++ [Ev.raw s!"balance {bal}"] ++ lim)
     | _ => (d, [])
   now := fun _ => 0
